@@ -264,6 +264,29 @@ fn workload_prefix(m: &mut Mon) {
             m.case("prefix128", 320, vec![Arg::N(r0), Arg::N(r1), Arg::N(k as u128), au(&tx), au(&ty)]);
         }
     }
+    // leading words whose remainder sequence lands exactly on (or next to) the limits the single-word loops test
+    let mut r = m.stream("c12.limits", 0);
+    for i in 0..m.iters(6_000) {
+        if i % 512 == 0 && m.time_up() {
+            break;
+        }
+        let t = match i % 12 {
+            0 | 1 | 2 | 3 => 1u64 << 32,
+            4 => (1 << 32) - 1,
+            5 => (1 << 32) + 1,
+            6 => 1 << 31,
+            7 => 1 << 33,
+            8 => (1 << 16) + r.below(3) as u64 - 1,
+            9 => 1 + r.below(3) as u64,
+            10 => (1u64 << r.range(2, 61)) + r.below(3) as u64 - 1,
+            _ => gen::alpha_limb(&mut r) >> r.range(2, 40),
+        };
+        let (a0, a1) = gcdgen::words_through(&mut r, t);
+        m.case("from_u64", 64, vec![Arg::N(a0.into()), Arg::N(a1.into())]);
+        let k = *r.pick(&[0usize, 0, 1, 63, 64, 64, 65, 128, 192]);
+        let (tx, ty) = (tails(&mut r, k), tails(&mut r, k));
+        m.case("prefix64", 320, vec![Arg::N(a0.into()), Arg::N(a1.into()), Arg::N(k as u128), au(&tx), au(&ty)]);
+    }
     for (a0, a1) in [(1u64 << 63, 0u64), (1 << 63, 1), (u64::MAX, u64::MAX), (u64::MAX, u64::MAX - 1), (1 << 63, (1 << 63) - 1),
                      (u64::MAX, 1 << 32), (u64::MAX, (1 << 32) - 1), (1 << 63, 1 << 32), (u64::MAX, 1 << 63)] {
         for k in [0usize, 1, 64, 128, 192] {
@@ -330,6 +353,29 @@ fn workload(m: &mut Mon, bits: usize) {
                 let d = BigUint::from(gen::alpha_limb(&mut r)) % &a;
                 both_orders(m, bits, &a, &(&a - d));
             }
+        }
+    }
+    // operands whose leading 64 bits are words with a remainder exactly on the 2^32 limit
+    if bits >= 65 {
+        let mut r = m.stream("c12.limits", bits);
+        for i in 0..m.iters(if bits <= 512 { 400 } else { 60 }) {
+            if i % 32 == 0 && m.time_up() {
+                return;
+            }
+            if !m.keep() {
+                continue;
+            }
+            let t = match i % 4 {
+                0 | 1 => 1u64 << 32,
+                2 => (1 << 32) - 1 + r.below(3) as u64,
+                _ => 1 << r.range(20, 50),
+            };
+            let (a0, a1) = gcdgen::words_through(&mut r, t);
+            let sh = r.range(1, bits - 64);
+            let low = |r: &mut Rng| if sh == 0 { BigUint::zero() } else { big::big(&gen::hostile(r, sh)) };
+            let a = (BigUint::from(a0) << sh) | low(&mut r);
+            let b = (BigUint::from(a1) << sh) | low(&mut r);
+            both_orders(m, bits, &a, &b);
         }
     }
     // hostile random
